@@ -2,7 +2,7 @@ import BarterModel.Driver.Common
 import BarterModel.Model.Stale
 /-!
 Line-protocol driver for C09. Ops: `init n` | `bal a t total free` | `full (a t total free)*`
-| `trade i t price` | `l1 i te tl bp ba ap aa` | `ord i c id t filled` (open report, quantity 10)
+| `trade i t price` | `l1 i te tl bp ba ap aa` | `l1e i te tl` (empty top of book) | `ord i c id t filled` (open report, quantity 10)
 | `cancel i c` (a cancel request for the order is sent: `record_in_flight_cancel`).
 -/
 namespace BarterModel.Driver.C09
@@ -14,7 +14,11 @@ structure St where
   n : Nat
 
 def fmtBal (b : Bal) : String := fmtRat b.1 ++ "," ++ fmtRat b.2
-def fmtL1 (x : L1) : String := s!"{fmtRat x.bidP},{fmtRat x.bidA},{fmtRat x.askP},{fmtRat x.askA}"
+/-- an EMPTY top of book (both sides absent: a legal message for an emptied / halted book) is carried
+as the all-zero payload -/
+def fmtL1 (x : L1) : String :=
+  if x.bidP == 0 && x.bidA == 0 && x.askP == 0 && x.askA == 0 then "empty"
+  else s!"{fmtRat x.bidP},{fmtRat x.bidA},{fmtRat x.askP},{fmtRat x.askA}"
 def fmtOpen (o : Open) : String := s!"O({o.id},{o.t},{fmtRat o.filled})"
 
 def cids : List Nat := [1, 2]
@@ -66,6 +70,10 @@ def parseOp : List String → Option POp
     match i.toNat?, te.toInt?, tl.toInt?, parseRat? bp, parseRat? ba, parseRat? ap, parseRat? aa with
     | some i, some te, some tl, some bp, some ba, some ap, some aa => some (.l1 i te ⟨tl, bp, ba, ap, aa⟩)
     | _, _, _, _, _, _, _ => none
+  | ["l1e", i, te, tl] =>
+    match i.toNat?, te.toInt?, tl.toInt? with
+    | some i, some te, some tl => some (.l1 i te ⟨tl, 0, 0, 0, 0⟩)
+    | _, _, _ => none
   | ["ord", i, c, id, t, f] =>
     match i.toNat?, c.toNat?, id.toNat?, t.toInt?, parseRat? f with
     | some i, some c, some id, some t, some f => some (.ord i c ⟨id, t, f⟩)
